@@ -563,7 +563,7 @@ struct StreamActors : Family {
 		uint64_t len;
 		switch (r.below(8)) {
 		case 0: len = r.below(3); break;
-		case 1: len = r.below(17); break;
+		case 1: len = r.chance(1, 4) ? boundarySize(r, thorough ? 16 : 14) : r.below(17); break;
 		case 2: len = r.chance(1, thorough ? 4 : 10) ? r.range(4000, thorough ? 70000 : 20000) : r.range(100, 600); break;
 		default: len = r.below(301); break;
 		}
